@@ -213,8 +213,22 @@ theorem resetDefault_stable_acyclic (env : Env) (rk : String → Nat) (hac : Env
 
 theorem decFuel_ge_six (env : Env) (r : Reader) : 6 ≤ decFuel env r := by
   unfold decFuel
-  calc 6 = 3 * 2 := rfl
-    _ ≤ (env.width + 3) * (r.data.size + 2) := Nat.mul_le_mul (by omega) (by omega)
+  have : 3 * 2 ≤ (env.width + 3) * (r.data.size + 2) := Nat.mul_le_mul (by omega) (by omega)
+  omega
+
+/-- the model fuel of `ReadFrom` exceeds the rank of every struct of an acyclic schema -/
+theorem rank_lt_decFuel (env : Env) (rk : String → Nat) (hac : EnvAcyclic env rk) (S : String)
+    (fs : List Field) (hfind : env.find S = some fs) (r : Reader) : rk S < decFuel env r := by
+  have h1 := (hac S fs hfind).1
+  have h2 : 3 * 2 ≤ (env.width + 3) * (r.data.size + 2) := Nat.mul_le_mul (by omega) (by omega)
+  unfold decFuel; omega
+
+/-- hence `ResetDefault` as called by `ReadFrom` does not depend on the input size -/
+theorem resetDefault_decFuel (env : Env) (rk : String → Nat) (hac : EnvAcyclic env rk) (S : String)
+    (fs : List Field) (hfind : env.find S = some fs) (vs : List Val) (r r' : Reader) :
+    resetDefault env (decFuel env r') fs vs = resetDefault env (decFuel env r) fs vs :=
+  resetDefault_stable_acyclic env rk hac S fs hfind vs _ _
+    (rank_lt_decFuel env rk hac S fs hfind r') (rank_lt_decFuel env rk hac S fs hfind r)
 
 /-! ### the reader state at each member -/
 
@@ -380,7 +394,8 @@ theorem absentVal_struct (env : Env) (F : Nat) (name : String) (inner : List Val
 theorem decFuel_pos (env : Env) (r : Reader) : decFuel env r = (decFuel env r - 1) + 1 := by
   have : 0 < decFuel env r := by
     unfold decFuel
-    exact Nat.mul_pos (by omega) (by omega)
+    have : 0 < (env.width + 3) * (r.data.size + 2) := Nat.mul_pos (by omega) (by omega)
+    omega
   omega
 
 /-- the reader when member `i`'s turn comes in `st.ReadFrom(readBuf)` -/
